@@ -112,7 +112,18 @@ func vfStRun(t testing.TB, tr *vfTrace, id string, c vfStCase, lab map[string]st
 		for o := 0; o < 3; o++ {
 			pcr := vfStBuild(t, c.Tab, lab, o)
 			h := vfStConc(c.Host, lab)
+			// other hosts looked up on the same table in between (one that every wildcard of the table matches, one that
+			// nothing matches): the answer for h does not depend on what was asked before
+			others := []string{"nothing-matches.invalid"}
+			for _, e := range c.Tab {
+				if p := vfStConc(e.Pat, lab); strings.Contains(p, "*") {
+					others = append(others, strings.Replace(p, "*", "zz", -1))
+				}
+			}
 			for i := 0; i < 50; i++ {
+				if o > 0 && i%2 == 1 {
+					pcr.FindRoute(others[(i/2)%len(others)])
+				}
 				proto, host, port, err := pcr.FindRoute(h)
 				r := vfStRes{Found: err == nil, Proto: proto, Host: vfChars(host), Port: port}
 				if err != nil {
